@@ -16,6 +16,9 @@ def run_unit(unit):
 def select(obs, fn_regex=None, clause_regex=None, keep_meta=True):
     out = []
     for o in obs:
+        if o.name.endswith("::extraction") or o.name.endswith("::assumption_scan"):
+            out.append(o)       # a unit that could not be built / scanned concerns every selection from it
+            continue
         if o.kind == "canary":
             if keep_meta:
                 out.append(o)
